@@ -17,6 +17,7 @@ fn registry() -> Vec<(&'static str, RunFn, ReplayFn, u64)> {
         ("C06", props::c06::run, props::c06::replay, 7200),
         ("C07", props::c07::run, props::c07::replay, 7200),
         ("C08", props::c08::run, props::c08::replay, 10800),
+        ("C09", props::c09::run, props::c09::replay, 10800),
     ]
 }
 
